@@ -17,6 +17,8 @@ EXH_QUICK = [
     ("n4-commit", 4, dict(Proposers=P1, MaxProp=1, MaxEnd=0, MaxCom=2, MaxForged=1, MaxClaims=1, ForgePok="FALSE")),
     ("n4-claims", 4, dict(Proposers=P1, MaxProp=1, MaxEnd=0, MaxCom=1, MaxForged=1, MaxClaims=3, ForgePok="TRUE")),
     ("n4-endorse", 4, dict(Proposers=P1, MaxProp=1, MaxEnd=3, MaxCom=0, MaxForged=1, MaxClaims=0, ForgePok="FALSE")),
+    # the same endorsement arriving with and without the endorser's cross-chain-msg signature (all signatures valid)
+    ("n4-endorse-cc", 4, dict(Proposers=P1, MaxProp=1, MaxEnd=3, MaxCom=0, MaxForged=0, MaxClaims=0, ForgePok="FALSE", CcChoices="CcBoth")),
 ]
 # N > 3C+1 (the quorum N-(N-1)/3 exceeds 2C+1): all-valid messages in a reduced universe, so that the fallback of commitDone
 # (pool signatures) and getCommitConsensus are exercised around their thresholds for these (N, C) too
@@ -46,8 +48,9 @@ def cfg_text(n, c, ov, design=False, edges=True):
          "  SW_Verify = %s" % sw, "  SW_PerBlock = %s" % sw, "  SW_Proposer = %s" % sw]
     ov = dict(ov)
     ov.setdefault("Canonical", "FALSE")
+    ov.setdefault("CcChoices", "CcNone")
     for k, v in ov.items():
-        l.append("  %s %s %s" % (k, "<-" if k == "Proposers" else "=", v))
+        l.append("  %s %s %s" % (k, "<-" if k in ("Proposers", "CcChoices") else "=", v))
     l += ["VIEW view", "INVARIANTS TypeOK" + (" Inv_CommitSound" if design else ""), "CHECK_DEADLOCK FALSE"]
     if edges:
         l += ["CONSTRAINT InitOut", "ACTION_CONSTRAINT Edge"]
